@@ -43,13 +43,13 @@ P = {
          "All override patterns {absent, override, override+parent()} for chains L<=3,B<=2 (quick) / L<=4,B<=4 (thorough) x layouts x 5 use variants (none, plain, aliased, same library at two levels, two use statements in one template), parent() called twice in half of the overriding bodies; random larger shapes with block() and nested blocks in loops.",
          "use only in extending templates; aliased originals unique.", "DESIGN.md#c09"),
  "C10": (True, "exploration", "%s with scope probes in host and target; exhaustive product of include/embed forms, call sites, targets and override subsets" % M,
-         "2 x 7 x 6 x 5 x 4 x 2 coordinates all run in quick (loop variable colliding once as a string and once as null, construct used again right after the loop), random nested include-in-embed-in-include on top; host variables and the complete scope listing probed after the construct, target variables probed inside; with-hashes of four Go map types.",
+         "2 x 7 x 6 x 5 x 4 x 2 coordinates all run in quick (loop variable colliding once as a string and once as null, construct used again right after the loop), random nested include-in-embed-in-include on top; host variables and the complete scope listing probed after the construct, target variables probed inside; with-hashes of several Go map types.",
          "Macro call sites use the only forms.", "DESIGN.md#c10"),
  "C11": (True, "exploration", "%s, recorded callback log, and metamorphic comparison of the call forms" % M,
          "params 0..4 x args 0..6 x 5 call forms x 9 uses exhaustively (incl. twice in a row, after a loop, one import statement executed with computed names, a from-import named like a registered function, definition and call inside embedded/included templates), unknown-macro errors, terminating recursion, random acyclic macro nests.",
          "Stated exclusions (_self through imports, definitions before calls, bodies use parameters only).", "DESIGN.md#c11"),
  "C12": (True, "exploration", "runtime monitoring: sentinel-bracketed prints in a Twig environment; per-segment exactness against the escaper for the statement's content-type rule and whole-output scan for significant characters",
-         "Exhaustive product of 29 template names x 38 constructs x same/different helper type x 13 payloads x 9 value wrappers (incl. derived safe values and defined scalar types with a String method); random payloads over the significant alphabet on top.",
+         "Exhaustive product of the template names x 38 constructs x same/different helper type x 13 payloads x 9 value wrappers (incl. derived safe values and defined scalar types with a String method); random payloads over the significant alphabet on top.",
          "User-registered escapers not exercised; indirect prints (captures, macros, block(), parent()) are held to safety only, as the statement does.", "DESIGN.md#c12"),
  "C14": (True, "exploration", "runtime monitoring: metamorphic oracle - every re-spelling (whitespace at each token boundary, quotes, trailing commas, trim markers) must render the same bytes, error kind and callback log as the canonical spelling",
          "One template per tag kind and expression form (41), each at 5 placements; exhaustive single-boundary sweep x 7 whitespace strings, pairwise sweeps, uniform and combined variants; random programs x random re-spellings.",
@@ -67,6 +67,29 @@ P = {
          "Positions on 8k/300k multi-line templates; every truncation offset of the injection and generated templates; '@' at every token boundary, a surplus literal before every closing delimiter, a stray closing bracket at every bracket-free boundary and an unknown tag; 101 kinds of broken template under 7 names through 8 loading paths; error text must agree with the error's position; at every statement position of 41 templates x 3 placements; broken named templates through 8 loading paths.",
          "Comments, filters, attribute and operator expressions are not anchors named by the statement; injections inside endverbatim excluded.", "DESIGN.md#c20"),
 }
+# what later rounds added to a check's exploration (appended to its level text)
+EXTRA = {
+ "C01": "Plus every ordered pair (thorough: triple) of some 170 statements - every tag with literal / name / conditional / interpolated / list / hash arguments.",
+ "C02": "Plus every context variable (incl. NaN-, interface-, bool- and struct-keyed maps) handed to every construct that takes a whole value (with-hash, template name, key-value loop, container filters ...); case-mapping oddities, long lists and fractional arguments for the filters.",
+ "C03": "Sources are read through readers of four shapes (all at once, byte by byte, halves, last bytes with io.EOF); near misses of endverbatim in verbatim bodies; templates defining a block name twice must be refused or rendered with every text run once.",
+ "C04": "Every chain is also parsed without any dispensable blank and with a line break between any two tokens; operands of prefix operators also in parentheses.",
+ "C05": "Hostile string literals (quotes, braces, delimiters), callback-computed hash keys, indexes after a dot followed by a further access, bitwise operands beyond 16 bits, negative divisors.",
+ "C06": "loop.parent chains as long as the nesting; ranges written directly in the tag.",
+ "C07": "54 enumerated chains child -> [middle ->] layout with assignments at the top level of every template.",
+ "C08": "White-space-only leaves; one leaf in 40 ends the execution with an error (nothing collected by open captures may show).",
+ "C09": "Alias chains in one use statement rendered eight times (either reading, but the same one); nested re-definition of another layout block with parent(); blockless embeds in overrides.",
+ "C10": "with-hashes of six Go map types incl. map[interface{}]interface{} and *map.",
+ "C11": "An eleventh use: defined / imported at the top level of an extending template and called in its block; a third of the cases spelled wide, a third tight.",
+ "C12": "37 template names, incl. file names containing %, {, }} and #.",
+ "C13": "Long values aligned to every offset within 12 bytes of 2^6..2^13 (thorough: 2^20); scheme prefixes and partial escape introducers in the boundary alphabet.",
+ "C14": "Hashes directly in front of closing delimiters, inside brackets and arguments, and holding interpolated strings (closing braces may touch).",
+ "C15": "Float carriers for every integer the float holds exactly (also beyond 2^53).",
+ "C17": "Every writer fault also through a destination with WriteString; ten kinds of failing sub-expression.",
+ "C18": "Sequential results from a fresh environment pair per template; every -race worker starts cold (all templates walked concurrently before anything has run); names with two meanings across templates; replace with overlapping keys.",
+ "C19": "Files of 0, 4097, 1 MiB and 9 MiB bytes.",
+ "C20": "Multi-word operators and tests with their words on different lines; names and indexes after a dot are anchors.",
+}
+
 NOT_BUILT_REASON = "check not built yet in this round (planned: see DESIGN.md section for this property)"
 
 def main():
@@ -75,6 +98,8 @@ def main():
     for pid in ids:
         if pid in P and P[pid][0]:
             _, cat, tech, text, note, ref = P[pid]
+            if pid in EXTRA:
+                text = text.rstrip() + " " + EXTRA[pid]
             checks.append({
                 "property_id": pid,
                 "quick_cmd": "bin/check %s quick" % pid,
